@@ -2141,7 +2141,11 @@ class RepeatingEngine(Engine):
                 self.emit_now()
 
         # VV: @tag:RestartEngines
-        if reason == experiment.model.codes.exitReasons["ResourceExhausted"] and self.restarts == 0:
+        # Like Engine.restart(), only restart for the exit reasons the component lists as restartable
+        reasons_for_restart = self.job.workflowAttributes.get('restartHookOn', [])
+
+        if reason == experiment.model.codes.exitReasons["ResourceExhausted"] and self.restarts == 0 \
+                and reason in reasons_for_restart:
             # VV: A RepeatingEngine will only restart once and only if its last exit-reason was ResourceExhausted
             self.log.info("Attempting restart of interrupted last task execution")
 
